@@ -45,6 +45,16 @@ def gen(chk):
             data = b32(k) + bytes([fail_at])
             for op in ('ecdsa_sign', 'ecdsa_sign_recoverable'):
                 chk.add('%s #%d %s %s %s' % (op, 3 if fail_at != 255 else 2, h32(mm), h32(d), data.hex()), 'sign_s_zero_then_retry')
+    # the library's RFC 6979 nonce function at retry counters above 0: called directly (every counter must give the counter-th candidate
+    # of the generator) and through a signing run whose first candidate is invalid, so that the signature is the one of candidate 1
+    for i in range(chk.scale(24, 300)):
+        d = r.seckey(); m = r.choice(msgs) if r.chance(1, 4) else r.scalar256()
+        data = None if r.chance(1, 2) else r.bytes(32); algo = None if r.chance(1, 2) else r.bytes(16)
+        chk.add('nonce_function_rfc6979 %s %s %s %s #%d' % (h32(m), h32(d), opt(algo), opt(data), r.choice([0, 1, 1, 2, 3, 4, 5, 8, 17])), 'rfc6979_nonce_counter')
+    for i in range(chk.scale(12, 150)):
+        d = r.choice(keys) if r.chance(1, 8) else r.seckey(); m = r.choice(msgs) if r.chance(1, 4) else r.scalar256()
+        data = None if r.chance(1, 2) else r.bytes(32)
+        chk.add('%s #4 %s %s %s' % ('ecdsa_sign' if r.chance(2, 3) else 'ecdsa_sign_recoverable', h32(m), h32(d), opt(data)), 'sign_rfc6979_after_rejected_candidate')
     # inputs that live inside the output object (in-place use): same result as with separate buffers
     for i in range(chk.scale(12, 200)):
         d = r.seckey(); m = r.scalar256(); kind = r.below(2); data = None if r.chance(1, 2) else r.bytes(32)
